@@ -283,7 +283,7 @@ pub fn c08(tier: Tier) -> Check {
                and the header accessors return exactly those values; non-trivial = accepted by some parser",
         assumptions: vec!["the count-implied bound is read leniently (body measured to the packet end, padding not subtracted)"],
         legs: vec![
-            Box::new(RandomLeg { name: "generated-strings", cases: tier.pick(150_000, 4_000_000), make: Box::new(gen::parser_input), oracle: c08_oracle }),
+            Box::new(RandomLeg { name: "generated-strings", cases: tier.pick(600_000, 4_000_000), make: Box::new(gen::parser_input), oracle: c08_oracle }),
             Box::new(SweepLeg { name: "header-space", n, at: Box::new(move |i| sweep.at(i)), oracle: c08_oracle, exhaustive: true }),
             len_leg(tier, c08_len_oracle),
         ],
@@ -470,10 +470,10 @@ pub fn c18(tier: Tier) -> Check {
                exact predictions: len < MIN => Truncated{MIN,len}; version 2, right type, len >= MIN, len != 4*(lf+1) => Truncated/TooLarge{4*(lf+1),len} by sign; non-trivial = some parser produced an error",
         assumptions: vec!["other error variants (InvalidPadding, Sdes*, WrongImplementation) carry no claim in the statement and are not judged"],
         legs: vec![
-            Box::new(RandomLeg { name: "generated-strings", cases: tier.pick(120_000, 3_000_000), make: Box::new(gen::parser_input), oracle: c18_oracle }),
+            Box::new(RandomLeg { name: "generated-strings", cases: tier.pick(480_000, 3_000_000), make: Box::new(gen::parser_input), oracle: c18_oracle }),
             Box::new(SweepLeg { name: "header-space", n, at: Box::new(move |i| sweep.at(i)), oracle: c18_oracle, exhaustive: true }),
             len_leg(tier, c18_len_oracle),
-            Box::new(RandomLeg { name: "sdes-shaped", cases: tier.pick(100_000, 2_000_000), make: Box::new(|| proptest::strategy::Strategy::boxed(proptest::prop_oneof![super::sdes::token_level(), super::sdes::mutated_sdes()])), oracle: c18_oracle }),
+            Box::new(RandomLeg { name: "sdes-shaped", cases: tier.pick(400_000, 2_000_000), make: Box::new(|| proptest::strategy::Strategy::boxed(proptest::prop_oneof![super::sdes::token_level(), super::sdes::mutated_sdes()])), oracle: c18_oracle }),
         ],
     }
 }
